@@ -7808,6 +7808,11 @@ class SFTPServer:
         if posixpath.isabs(oldpath):
             oldpath = self.map_path(oldpath)
         else:
+            if self._chroot:
+                # A relative target is resolved from the directory the
+                # link really ends up in, so normalize its path first
+                newpath = posixpath.normpath(posixpath.join(b'/', newpath))
+
             newdir = posixpath.dirname(newpath)
             abspath1 = self.map_path(posixpath.join(newdir, oldpath))
 
